@@ -3,6 +3,8 @@ package main
 import (
 	"go/types"
 	"strings"
+
+	"golang.org/x/tools/go/ssa"
 )
 
 // funcFieldExists: key has the form "(pkgpath.T).f" and T is a struct with a func-typed field f.
@@ -35,6 +37,21 @@ func (e *Engine) funcFieldExists(key string) bool {
 		if st.Field(j).Name() == f {
 			_, isFn := st.Field(j).Type().Underlying().(*types.Signature)
 			return isFn
+		}
+	}
+	return false
+}
+
+// hasLocalNamed: the function keeps a variable of that source name in a local cell (always true for parameters
+// in go/ssa's naive form), and the cell has been allocated on the path executed so far.
+func (fr *Frame) hasLocalNamed(name string) bool {
+	for _, b := range fr.fn.Blocks {
+		for _, in := range b.Instrs {
+			if a, ok := in.(*ssa.Alloc); ok && a.Comment == name {
+				if _, have := fr.regs[a]; have {
+					return true
+				}
+			}
 		}
 	}
 	return false
